@@ -107,24 +107,43 @@ Definition msg_dst_not_found : bytes := B "dstChain not found".
 
 Definition is_nil (b : bytes) : bool := match b with [] => true | _ => false end.
 
-Section Packet.
+(** The external functions, as one record of oracle arguments of the model. *)
+Record params := mkParams {
   (** host/keys.go *)
-  Variable receipt_key ack_key commitment_key : bytes -> bytes -> N -> bytes.
-  Variable nextseq_key : bytes -> bytes -> bytes.
+  receipt_key : bytes -> bytes -> N -> bytes;
+  ack_key : bytes -> bytes -> N -> bytes;
+  commitment_key : bytes -> bytes -> N -> bytes;
+  nextseq_key : bytes -> bytes -> bytes;
   (** host.ClientIdentifierValidator (checked by the gov proposals' ValidateBasic) *)
-  Variable valid_name : bytes -> bool.
+  valid_name : bytes -> bool;
   (** Packet.ABIDecode: the struct as left by the call, and whether an error was returned *)
-  Variable decode : bytes -> packet * bool.
-  Variable abi_pack : packet -> option bytes.             (* Packet.ABIPack *)
-  Variable sha256 : bytes -> bytes.
-  Variable decode_ack : bytes -> option ackt.             (* Acknowledgement.ABIDecode *)
-  Variable pack_ack : ackt -> option bytes.               (* Acknowledgement.ABIPack *)
+  decode : bytes -> packet * bool;
+  abi_pack : packet -> option bytes;             (* Packet.ABIPack *)
+  sha256 : bytes -> bytes;
+  decode_ack : bytes -> option ackt;             (* Acknowledgement.ABIDecode *)
+  pack_ack : ackt -> option bytes;               (* Acknowledgement.ABIPack *)
   (** ClientState.VerifyPacketCommitment / VerifyPacketAcknowledgement of the client stored under a name:
       environment (block time, that client's store), client name, client type, kind, proof height, proof,
       (src, dst, seq), value *)
-  Variable client_verify : N -> bytes -> ctype -> N -> height -> bytes -> bytes -> bytes -> N -> bytes -> bool.
-  Variable bech32_decode : bytes -> option bytes.         (* sdk.AccAddressFromBech32 *)
-  Variable equal_fold : bytes -> bytes -> bool.           (* strings.EqualFold *)
+  client_verify : N -> bytes -> ctype -> N -> height -> bytes -> bytes -> bytes -> N -> bytes -> bool;
+  bech32_decode : bytes -> option bytes;         (* sdk.AccAddressFromBech32 *)
+  equal_fold : bytes -> bytes -> bool }.         (* strings.EqualFold *)
+
+Section Packet.
+  Variable P : params.
+  Local Notation receipt_key := (receipt_key P).
+  Local Notation ack_key := (ack_key P).
+  Local Notation commitment_key := (commitment_key P).
+  Local Notation nextseq_key := (nextseq_key P).
+  Local Notation valid_name := (valid_name P).
+  Local Notation decode := (decode P).
+  Local Notation abi_pack := (abi_pack P).
+  Local Notation sha256 := (sha256 P).
+  Local Notation decode_ack := (decode_ack P).
+  Local Notation pack_ack := (pack_ack P).
+  Local Notation client_verify := (client_verify P).
+  Local Notation bech32_decode := (bech32_decode P).
+  Local Notation equal_fold := (equal_fold P).
 
   Definition rkey (t : triple) := let '(s, d, q) := t in receipt_key s d q.
   Definition akey (t : triple) := let '(s, d, q) := t in ack_key s d q.
